@@ -86,8 +86,8 @@ def inject_stats(scn, info):
         continue
       rank = len(info["shapes"][si][t])
       shape = (1,) * rank
-      lo = -(1.0 + 0.375 * k)
-      hi = 0.5 + 0.21875 * k
+      lo = -(1.3125 + 0.375 * k)   # dyadic, never a bound that a fixed-range kernel uses
+      hi = 0.5625 + 0.21875 * k
       stats[info["names"][si][t]] = {"min": np.full(shape, lo, np.float32), "max": np.full(shape, hi, np.float32)}
       k += 1
   return stats
@@ -177,7 +177,8 @@ def compare(dump, impl, in_proj=None, out_proj=None):
     snames = [spec_name(si, t, nsub) for t in S["nm"]]
     if snames != O["names"]:
       diffs.append("sub %d names: spec %s impl %s" % (si, snames, O["names"]))
-    spec_pars += [p for p in S["par"]]
+    # annotation equality: the bias term carries its buffer (data identity), the annotation does not
+    spec_pars += [[p[0]] + p[2:] if p[0] == "B" else p for p in S["par"]]
     impl_pars += [("c", c) if c else ("none",) for c in O["pc"]]
   if len(spec_pars) == len(impl_pars) and _canon_partition(spec_pars) != _canon_partition(impl_pars):
     diffs.append("parameter classes: spec %s impl %s" % (_canon_partition(spec_pars), _canon_partition(impl_pars)))
